@@ -247,7 +247,10 @@ def main_env():
         rec["k"] = job["k"]
         out["int"].append(rec)
     for job in inp.get("pk", []):
-        o = pk_job(job)
+        try:
+            o = pk_job(job)
+        except Exception as ex:      # noqa: BLE001  an exception while the job's key material is set up is an outcome under this environment too
+            o = {"tn": "none", "ex": exc_class(ex), "by": []}
         o["who"] = "%s[%s]" % (cls.__name__, label)
         out["pk"].append({"k": job["k"], "fam": job["fam"], "op": job["op"], "idx": job["idx"], "obs": [o]})
     json.dump(out, sys.stdout)
